@@ -142,7 +142,7 @@ def run(ctx):
     seqs = [json.loads(s) for s in seqs]
     ctx.log('TLC: %d states, %d distinct operation sequences' % (res.distinct, len(seqs)))
     rnd = random.Random(ctx.seed)
-    reps = 3 if ctx.thorough else 1
+    reps = 12 if ctx.thorough else 1
     sq = squidctl.Squid(ctx, tree, clock=False, conf_extra='read_timeout 10 seconds\n', http_access='acl CONNECT method CONNECT\nhttp_access allow all')
     sq.start()
     try:
